@@ -35,10 +35,15 @@ def body(rng: Rng, fmt: str, kind: str, xref: Optional[str], plant: Optional[str
         t = f' Summary with I{{italic}} and C{{code}}' + (f' and L{{{xref}}}' if xref else '') + f'. {s1}\n\n{s2}\n\n  - item {s3}\n  - second item\n\n'
         if rng.chance(0.3):
             # section headings; the same (long) heading may legitimately occur twice
-            h = rng.choice(['Usage', 'Notes about thread safety and reentrancy guarantees of this API', 'Implementation details'])
+            pool = ['Usage', 'Notes about thread safety and reentrancy guarantees of this API', 'Implementation details',
+                    '1.0', '2.0', '2024', '--', 'Вступление', 'Заметки']
+            h = rng.choice(pool)
             t += f'{h}\n' + '=' * len(h) + f'\n\n{s3}\n\n'
             if rng.chance(0.5):
-                t += f'{h}\n' + '=' * len(h) + f'\n\nAgain: {s1}\n\n'
+                # a second section: the same heading again, or another one (change-log style numeric headings, headings
+                # in another script: their anchors are derived from the text)
+                h2 = h if rng.chance(0.5) else rng.choice(pool)
+                t += f'{h2}\n' + '=' * len(h2) + f'\n\nAgain: {s1}\n\n'
         if rng.chance(0.4):
             # symbol and escape markup, drawn from the table of the epytext module under test
             syms = _epytext_symbols()
